@@ -1,9 +1,20 @@
 package main
 
+import "os"
+
 // SplitMix64: every random choice of a campaign derives from one state, so a run replays exactly.
 type Rng struct{ s uint64 }
 
-func NewRng(seed uint64) *Rng { return &Rng{s: seed*0x9E3779B97F4A7C15 + 0x1234567} }
+// The seed is scrambled first: with a plain affine start, seed k+1 would replay seed k's stream one
+// draw later, and sweeps over consecutive seeds would explore almost the same cases.
+func NewRng(seed uint64) *Rng {
+	if os.Getenv("VERIF_OLDRNG") != "" {
+		return &Rng{s: seed*0x9E3779B97F4A7C15 + 0x1234567}
+	}
+	r := &Rng{s: seed ^ 0x1234567}
+	r.s = r.U64() * 0xD6E8FEB86659FD93
+	return r
+}
 func (r *Rng) U64() uint64 {
 	r.s += 0x9E3779B97F4A7C15
 	z := r.s
